@@ -34,9 +34,9 @@ func anchoredPkg(fn *ssa.Function) bool {
 func runC06(c *Ctx) {
 	c.Rule("R6.1", "no error of an effectful call is lost on any path (logging is not handling)", 150)
 	c.Rule("R6.2", "phase/state change is persisted before acting on it", 2)
-	c.Rule("R6.3", "grace closures and retry-style manager methods report exactly what they did", 12)
+	c.Rule("R6.3", "grace closures and retry-style manager methods report exactly what they did", 10)
 	c.Rule("R6.4", "canary Deployment created once", 2)
-	c.Rule("R6.5", "empty keyed objects are never read before a successful client call filled them in", 10)
+	c.Rule("R6.5", "empty keyed objects are never read before a successful client call filled them in", 8)
 
 	checkErrorDiscipline(c, "R6.1", func(fn *ssa.Function) bool { return anchoredPkg(fn) })
 	checkPersistBeforeAct(c, "R6.2")
